@@ -6,6 +6,7 @@ from .stmt import (
     ReturnValueSetStmt, FunctionBlock, SubBlock, SimpleCaseClause,
     RangeCaseClause, CompareCaseClause, CaseElseStmt, CaseStmt,
     SelectBlock, Block, ElseStmt, ElseIfStmt, DimStmt, TypeBlock,
+    DeclareStmt,
 )
 from .expr import Type, Expr, Lvalue, NumericLiteral, FuncCall
 from .program import Label, LineNo
@@ -447,7 +448,8 @@ class Pass1(CompilePass):
 
     def process_var_clause_pre(self, node):
         is_param = (
-            isinstance(node.parent, (SubBlock, FunctionBlock)) and
+            isinstance(node.parent,
+                       (SubBlock, FunctionBlock, DeclareStmt)) and
             any(node is param for param in node.parent.params)
         )
         if not is_param and \
